@@ -8,20 +8,26 @@ TIERS = {"quick": dict(mc="MC_Sync.cfg", trials=40, threads=8, iters=150), "thor
 
 
 def obligations(work):
-    """(library builds with sync) and not (obligations build) => the Send/Sync guarantee is gone"""
+    """(library builds with sync) and not (obligations build) => the Send/Sync guarantee is gone.
+    Returns (library_builds, obligations_hold, diagnostics)."""
     tdir = os.path.join(HARNESS, "target-sync")
-    p = subprocess.run(["cargo", "build", "--offline", "-q", "-p", "obligations", "--target-dir", tdir], cwd=HARNESS,
-                       stdout=subprocess.PIPE, stderr=subprocess.STDOUT, env=dict(os.environ, CARGO_NET_OFFLINE="true"))
-    return p.returncode == 0, p.stdout.decode("utf-8", "replace")
+    env = dict(os.environ, CARGO_NET_OFFLINE="true")
+    base = ["cargo", "build", "--offline", "-q", "-p", "obligations", "--target-dir", tdir]
+    p0 = subprocess.run(base, cwd=HARNESS, stdout=subprocess.PIPE, stderr=subprocess.STDOUT, env=env)
+    if p0.returncode != 0:
+        return False, False, p0.stdout.decode("utf-8", "replace")
+    p = subprocess.run(base + ["--features", "obligations"], cwd=HARNESS, stdout=subprocess.PIPE, stderr=subprocess.STDOUT, env=env)
+    return True, p.returncode == 0, p.stdout.decode("utf-8", "replace")
 
 
 def run(prop, tier, seed, work, ev):
     t = TIERS[tier]
     tlc_ok("mc/MC_Sync.tla", t["mc"], work, ev=ev, label="once-initialised default runtime: one initialiser, no partial registry, sequential results, all threads finish (liveness) " + tier)
     tlc_must_fail("mc/MC_Sync.tla", "MC_Sync_neg.cfg", work, invariant="Inv_NoPartialRegistry", ev=ev)
-    drv = build_driver("sync")
     rejects = []
-    ok, diag = obligations(work)
+    lib_ok, ok, diag = obligations(work)
+    if not lib_ok:
+        raise ToolError("the library does not build with --features sync:\n" + diag[-3000:])
     ev.extra["send_sync_obligations"] = {"types": ["Expression", "Runtime", "Variable", "Rcvar", "Ast", "JmespathError", "Signature", "Box<dyn Function>", "&'static DEFAULT_RUNTIME"],
                                         "discharged_by_rustc": ok}
     if not ok:
@@ -33,6 +39,9 @@ def run(prop, tier, seed, work, ev):
                "each event's outcome is judged against the sequential meaning Eval. Non-trivial: non-null results." % (t["trials"], t["threads"], t["iters"]))
     ev.assumptions.append("The memory model is outside TLA+: absence of data races rests on the Send/Sync obligations discharged by rustc and on the absence "
                           "of unsafe code / interior mutability in the library; schedules are sampled by running real threads, not enumerated.")
+    if not ok:
+        return rejects       # the thread harness itself shares expressions across threads: it cannot be built without the guarantee
+    drv = build_driver("sync")
     # case pool
     c = work.path("pool.cases")
     eng_eval.gen(work, "sent", c, n=3, lo=1, assign=1, ndocs=12)
@@ -61,7 +70,7 @@ def run(prop, tier, seed, work, ev):
 def replay(prop, path, work):
     rec = json.load(open(path))["record"]
     if rec.get("e") == "obligations":
-        ok, diag = obligations(work)
+        lib_ok, ok, diag = obligations(work)
         print(diag[-3000:])
         if not ok:
             print("VIOLATION property=%s replay=%s" % (prop, path))
